@@ -108,25 +108,32 @@ Definition form_field (params : pairs) (name tail : string) : string :=
   | None => EmptyString
   end.
 
-(* template field lines: (name, text between the closing quote and {{end}}) *)
-Definition form_fields : list (string * string) :=
-  [("state", "/>"); ("session_state", "/>"); ("code", " />"); ("id_token", "/>");
-   ("access_token", " />"); ("token_type", " />"); ("expires_in", " />")].
+(* the names the template knows, in document order *)
+Definition form_fields : list string :=
+  ["state"; "session_state"; "code"; "id_token"; "access_token"; "token_type"; "expires_in"].
 
 Definition form_head : string :=
   ("<!doctype html>" ++ nl ++ "<html>" ++ nl ++ "<head><meta charset=""UTF-8"" /></head>" ++ nl
    ++ "<body onload=""javascript:document.forms[0].submit()"">" ++ nl
    ++ "<form method=""post"" action=""")%string.
 
-Fixpoint form_lines (params : pairs) (l : list (string * string)) : string :=
-  match l with
-  | [] => EmptyString
-  | (name, tail) :: r => (form_field params name tail ++ nl ++ form_lines params r)%string
-  end.
+(* session_state (fix Fxx-C11-1) is written "{{- with ...}}<newline><input .../>{{end}}"
+   right after the state line: it brings its own leading newline and leaves the
+   output unchanged when absent *)
+Definition form_lines (params : pairs) : string :=
+  (form_field params "state" "/>"
+   ++ (match lookup "session_state" params with
+       | Some _ => nl ++ form_field params "session_state" "/>"
+       | None => "" end) ++ nl
+   ++ form_field params "code" " />" ++ nl
+   ++ form_field params "id_token" "/>" ++ nl
+   ++ form_field params "access_token" " />" ++ nl
+   ++ form_field params "token_type" " />" ++ nl
+   ++ form_field params "expires_in" " />" ++ nl)%string.
 
 Definition form_body (redirect : string) (params : pairs) : string :=
   (form_head ++ form_action redirect ++ """>" ++ nl
-   ++ form_lines params form_fields
+   ++ form_lines params
    ++ "</form>" ++ nl ++ "</body>" ++ nl ++ "</html>")%string.
 
 (* ---------------- user agent ---------------- *)
@@ -135,13 +142,13 @@ Definition is_cont (c : ascii) : bool := between 128 191 c.
 (* second byte ranges of UTF-8 (Unicode table 3-7), as utf8.DecodeRune accepts *)
 Definition ok2 (a b : ascii) : bool := between 194 223 a && is_cont b.
 Definition ok3 (a b c : ascii) : bool :=
-  ((Ascii.eqb a (ascii_of_N 224) && between 160 191 b)
+  (((byte_n a =? 224)%N && between 160 191 b)
    || ((between 225 236 a || between 238 239 a) && is_cont b)
-   || (Ascii.eqb a (ascii_of_N 237) && between 128 159 b)) && is_cont c.
+   || ((byte_n a =? 237)%N && between 128 159 b)) && is_cont c.
 Definition ok4 (a b c d : ascii) : bool :=
-  ((Ascii.eqb a (ascii_of_N 240) && between 144 191 b)
+  (((byte_n a =? 240)%N && between 144 191 b)
    || (between 241 243 a && is_cont b)
-   || (Ascii.eqb a (ascii_of_N 244) && between 128 143 b)) && is_cont c && is_cont d.
+   || ((byte_n a =? 244)%N && between 128 143 b)) && is_cont c && is_cont d.
 
 (* width of the well-formed sequence at the head of (a :: r); 0 = ill-formed *)
 Definition rune_width (a : ascii) (r : string) : nat :=
